@@ -222,6 +222,8 @@ class watchdog:
 
 def impl_exec(line):
     t = line.split()
+    if watchdog.fired >= 3:
+        return "RAISE HANG-SKIPPED"
     try:
         with watchdog(60.0):
             return _exec(t)
